@@ -545,7 +545,19 @@ func sessNum(id string) int {
 
 var t0 = time.Date(2026, 1, 1, 0, 0, 0, 0, time.UTC)
 
+// bigName: version 2 of every session carries a long user name, so its stream event is a line of more than 4096
+// bytes (longer than one bufio buffer) while version 1 fits into a few hundred bytes
+var bigName = strings.Repeat("u", 5000) + "@isp.example"
+
 func mkSession(i, v int) *ha.SessionState {
+	s := mkSessionBase(i, v)
+	if v == 2 {
+		s.Username = bigName
+	}
+	return s
+}
+
+func mkSessionBase(i, v int) *ha.SessionState {
 	return &ha.SessionState{SessionID: sessID(i), SubscriberID: fmt.Sprintf("sub-%03d", i), MAC: fmt.Sprintf("00:11:22:33:44:%02x", i),
 		IP: fmt.Sprintf("10.0.%d.%d", v, i), VLAN: 100 + i, QoSProfile: fmt.Sprintf("profile-%d", v), DownloadRateBps: uint64(v) * 1_000_000,
 		SessionType: "ipoe", CreatedAt: t0, LastActivity: t0.Add(time.Duration(v) * time.Minute), State: "active"}
@@ -557,7 +569,7 @@ func versionOf(s *ha.SessionState) int {
 	for v := 1; v <= 2; v++ {
 		w := mkSession(i, v)
 		if s.IP == w.IP && s.QoSProfile == w.QoSProfile && s.DownloadRateBps == w.DownloadRateBps && s.MAC == w.MAC && s.VLAN == w.VLAN &&
-			s.SubscriberID == w.SubscriberID && s.State == w.State && s.LastActivity.Equal(w.LastActivity) {
+			s.SubscriberID == w.SubscriberID && s.State == w.State && s.LastActivity.Equal(w.LastActivity) && s.Username == w.Username {
 			return v
 		}
 	}
